@@ -15,6 +15,7 @@ import TallyVerif.Driver.Fs
 import TallyVerif.Driver.View
 import TallyVerif.Driver.Discover
 import TallyVerif.Driver.Migrate
+import TallyVerif.Driver.Config
 /-! `tvdrv`: one JSON object per line in, one canonical JSON object per line out. -/
 open Lean TallyVerif.Driver
 
@@ -51,6 +52,10 @@ def dispatch (j : Json) : Json :=
   | "viewkeys" => handleViewKeys j
   | "fs" => FsD.handleFs j
   | "fsseq" => FsD.handleFsSeq j
+  | "config" => handleConfig j
+  | "resolvesource" => handleResolveSource j
+  | "paths" => handlePaths j
+  | "truthy" => handleTruthy j
   | "ping" => obj [("pong", .bool true)]
   | op => obj [("err", .str s!"unknown op {op}")]
 
